@@ -3,14 +3,15 @@
  *
  * case layout:
  *   sel:1      bits 0-1 precision (FULL/HIGH/MEDIUM/LOW), bits 2-3 mode
- *              (INDEPENDENT/COMMON_EXPONENT/DELTA_EXPONENT/COMMON), bits 4-5 == 3 ->
- *              varintFloatEncodeAuto, bits 6-7 background fill of the output
+ *              (INDEPENDENT/COMMON_EXPONENT/DELTA_EXPONENT/COMMON), bits 4-6 >= 5 ->
+ *              varintFloatEncodeAuto, bit 7 background fill of the output
  *   [req]      only for auto: class:1 (+ args) -> requested error in (0,1),
  *              either at/next to one of {2^-52,1e-10,2^-23,5e-4,2^-10,0.03,
  *              2^-4} or log-uniform 2^-(k+1)*(1+f), k=0..63
  *   shape:1    bits 0-2: explicit | one binade | spread<=255 | spread>=256 |
  *              specials interleaved | free mix; bit 3: sprinkle specials
- *              (bulk); bits 4-5: exponent window 256 / 4 binades (explicit)
+ *              (bulk); bits 4-5: exponent window 256 / 4 binades (explicit);
+ *              bits 6-7 != 0: no deliberate carry patterns
  *   explicit:  elements until the case is exhausted (1..64)
  *   bulk:      len:1(+2) seed:4 shape-args, expanded with vf_xs; then up to 8
  *              patches { index:2 element }
@@ -23,7 +24,13 @@
  * identical, normals |d-x| <= 2^-m |x| evaluated exactly in x87 long double,
  * m taken from the published varintFloatPrecisionMaxRelativeError(); the one
  * documented escape: a value whose m-bit rounding is 2^1024 may come back as
- * the infinity of its sign.  Auto: the requested error is the bound. */
+ * the infinity of its sign.  Auto: the guarantee of the reported precision,
+ * then the requested error as the bound.
+ *
+ * sites: float.full.bits, float.lossy.special, float.lossy.carry (element
+ * whose rounding carries into the next binade), float.lossy.error (any other
+ * normal element), float.auto.error (within the selected precision's bound
+ * but not within the request), float.length. */
 #include "vf.h"
 
 #include "varintFloat.h"
@@ -206,21 +213,28 @@ static uint64_t take_mant(vf_rd *r, unsigned mc) {
     }
 }
 
-static uint64_t take_elem(vf_rd *r) {
+/* gate != 0: no deliberate carry patterns (mantissa classes 2 and 3 become
+ * "random"), so that arrays without a rounding carry stay frequent */
+static uint64_t take_elem(vf_rd *r, unsigned gate) {
     unsigned d = vf_u8(r);
     unsigned e = take_exp(r, (d >> 3) & 15);
-    uint64_t f = take_mant(r, d & 7);
+    unsigned mc = d & 7;
+    if (gate && (mc == 2 || mc == 3)) {
+        mc = 5;
+    }
+    uint64_t f = take_mant(r, mc);
     return mk(d >> 7, e, f);
 }
 
 /* element from the pseudo-random stream (bulk shapes) */
+static unsigned g_gate; /* set per case by take_doubles */
 static uint64_t xs_elem(uint64_t *s) {
     uint8_t buf[16];
     uint64_t a = vf_xs(s), b = vf_xs(s);
     memcpy(buf, &a, 8);
     memcpy(buf + 8, &b, 8);
     vf_rd r = {buf, sizeof(buf), 0};
-    return take_elem(&r);
+    return take_elem(&r, g_gate);
 }
 
 static uint64_t xs_special(uint64_t *s) {
@@ -307,6 +321,8 @@ static uint64_t *take_doubles(vf_rd *r, size_t *np, unsigned *shp) {
     unsigned s = vf_u8(r);
     unsigned sh = shmap[s & 7];
     int sprinkle = (s >> 3) & 1;
+    unsigned gate = (s >> 6) & 3;
+    g_gate = gate;
     *shp = sh;
     if (sh == SH_EXPLICIT) {
         uint64_t *v = (uint64_t *)malloc(64 * sizeof(uint64_t));
@@ -318,7 +334,7 @@ static uint64_t *take_doubles(vf_rd *r, size_t *np, unsigned *shp) {
          * that small spreads are as frequent as huge ones */
         unsigned fold = (s >> 4) & 3;
         do {
-            uint64_t u = take_elem(r);
+            uint64_t u = take_elem(r, gate);
             if (!is_special_bits(u) && (fold == 1 || fold == 2)) {
                 unsigned e = expf_of(u);
                 e = fold == 1 ? 896 + e % 256u : 1022 + e % 4u;
@@ -453,7 +469,7 @@ static uint64_t *take_doubles(vf_rd *r, size_t *np, unsigned *shp) {
     /* explicit overrides at chosen indices */
     for (unsigned k = 0; k < 8 && vf_left(r) >= 3; k++) {
         size_t idx = vf_u16(r) % n;
-        v[idx] = take_elem(r);
+        v[idx] = take_elem(r, 0);
     }
     *np = n;
     return v;
@@ -681,12 +697,11 @@ static int check_array(ctx *c, const uint64_t *bits, size_t n, unsigned prec,
                                                                  : "len.65+");
     }
 
-    /* ---- per-element verdict */
-    const char *siteBits = "float.full.bits";
-    const char *siteSpecial = isauto ? "float.auto.special"
-                                     : "float.lossy.special";
-    const char *siteErr = isauto ? "float.auto.error" : "float.lossy.error";
-    long double b = isauto ? (long double)req : pubBound;
+    /* ---- per-element verdict.  An encoding made by EncodeAuto is first held
+     * to the guarantee of the precision it reports (bit-exact for FULL, the
+     * published bound otherwise) and then to the requested error, so that
+     * float.auto.error fires exactly when the selection is looser than the
+     * request. */
     size_t escapes = 0;
     for (size_t i = 0; i < n && !bad; i++) {
         uint64_t u = bits[i];
@@ -702,54 +717,62 @@ static int check_array(ctx *c, const uint64_t *bits, size_t n, unsigned prec,
                           (int)varintFloatIsSpecial(x));
             break;
         }
-        if (!isauto && prec == VARINT_FLOAT_PRECISION_FULL) {
+        if (eff == VARINT_FLOAT_PRECISION_FULL) {
             if (g != u) {
-                bad = vf_fail(rep, siteBits, "value",
-                              "%s n=%zu spread=%u: element %zu = %.17g "
+                bad = vf_fail(rep, "float.full.bits", "value",
+                              "%s%s n=%zu spread=%u: element %zu = %.17g "
                               "(0x%016llx) decoded as %.17g (0x%016llx)",
-                              pm, n, spread, i, x, (unsigned long long)u,
-                              bits2d(g), (unsigned long long)g);
+                              pm, isauto ? " selected FULL" : "", n, spread, i,
+                              x, (unsigned long long)u, bits2d(g),
+                              (unsigned long long)g);
             }
             continue;
         }
         if (is_special_bits(u)) {
             if (g != u) {
-                bad = vf_fail(rep, siteSpecial, "value",
-                              "%s n=%zu: special element %zu = %.17g "
+                bad = vf_fail(rep, "float.lossy.special", "value",
+                              "%s%s%s n=%zu: special element %zu = %.17g "
                               "(0x%016llx) decoded as %.17g (0x%016llx)",
-                              pm, n, i, x, (unsigned long long)u, bits2d(g),
+                              pm, isauto ? " selected " : "",
+                              isauto ? PN[eff] : "", n, i, x,
+                              (unsigned long long)u, bits2d(g),
                               (unsigned long long)g);
             }
             continue;
         }
         double d = bits2d(g);
-        if (isinf(d) && eff != VARINT_FLOAT_PRECISION_FULL &&
-            (g >> 63) == (u >> 63) && rounds_above_max(u, (unsigned)m)) {
+        if (isinf(d) && (g >> 63) == (u >> 63) &&
+            rounds_above_max(u, (unsigned)m)) {
             escapes++; /* the documented escape */
             continue;
         }
-        if (isnan(d) || isinf(d) || !within(x, d, b)) {
-            long double rel =
-                isfinite(d) ? fabsl((long double)d - (long double)x) /
-                                  fabsl((long double)x)
-                            : (long double)INFINITY;
-            if (isauto) {
-                bad = vf_fail(rep, siteErr, "bound",
-                              "%s selected %s n=%zu spread=%u: element %zu = "
-                              "%.17g (0x%016llx) decoded as %.17g "
-                              "(0x%016llx): relative error %.6Lg > requested "
-                              "%.17g",
-                              pm, PN[eff], n, spread, i, x,
-                              (unsigned long long)u, d, (unsigned long long)g,
-                              rel, req);
-            } else {
-                bad = vf_fail(rep, siteErr, "bound",
-                              "%s n=%zu spread=%u: element %zu = %.17g "
-                              "(0x%016llx) decoded as %.17g (0x%016llx): "
-                              "relative error %.6Lg > published 2^-%d = %.6Lg",
-                              pm, n, spread, i, x, (unsigned long long)u, d,
-                              (unsigned long long)g, rel, m, pubBound);
-            }
+        long double rel = isfinite(d)
+                              ? fabsl((long double)d - (long double)x) /
+                                    fabsl((long double)x)
+                              : (long double)INFINITY;
+        if (!isfinite(d) || !within(x, d, pubBound)) {
+            /* two sub-checks: values whose rounding carries into the next
+             * binade, and all the others */
+            bad = vf_fail(rep,
+                          carries(u, (unsigned)m) ? "float.lossy.carry"
+                                                  : "float.lossy.error",
+                          "bound",
+                          "%s%s%s n=%zu spread=%u: element %zu = %.17g "
+                          "(0x%016llx) decoded as %.17g (0x%016llx): "
+                          "relative error %.6Lg > published 2^-%d = %.6Lg",
+                          pm, isauto ? " selected " : "",
+                          isauto ? PN[eff] : "", n, spread, i, x,
+                          (unsigned long long)u, d, (unsigned long long)g, rel,
+                          m, pubBound);
+        } else if (isauto && !within(x, d, (long double)req)) {
+            bad = vf_fail(rep, "float.auto.error", "bound",
+                          "%s selected %s (published 2^-%d = %.6Lg) n=%zu "
+                          "spread=%u: element %zu = %.17g (0x%016llx) decoded "
+                          "as %.17g (0x%016llx): relative error %.6Lg > "
+                          "requested %.17g",
+                          pm, PN[eff], m, pubBound, n, spread, i, x,
+                          (unsigned long long)u, d, (unsigned long long)g, rel,
+                          req);
         }
     }
 
@@ -777,14 +800,14 @@ done:
 
 /* ------------------------------------------------------------------ driver */
 void vf_run(vf_rd *r, vf_report *rep) {
-    static const uint8_t fills[4] = {0x00, 0xFF, 0xA5, 0x5A};
+    static const uint8_t fills[2] = {0xA5, 0xFF};
     ctx c = {rep, 0};
     unsigned sel = vf_u8(r);
     unsigned prec = sel & 3;
     static const unsigned modemap[4] = {0, 1, 2, 1};
     unsigned mode = modemap[(sel >> 2) & 3];
-    int isauto = ((sel >> 4) & 3) == 3;
-    uint8_t fill = fills[sel >> 6];
+    int isauto = ((sel >> 4) & 7) >= 5;
+    uint8_t fill = fills[sel >> 7];
     double req = 0;
     int near = -1;
     if (isauto) {
